@@ -314,13 +314,6 @@ impl LspContext {
         Ok(())
     }
 
-    fn join(self) -> MosResult<()> {
-        if let Some(io) = self.connection.unwrap().1 {
-            io.join()?;
-        }
-        Ok(())
-    }
-
     fn find_definitions<'a>(
         &'a self,
         analysis: &'a Analysis,
@@ -418,12 +411,21 @@ impl LspServer {
             .unwrap()
             .initialize(server_capabilities)?;
         self.main_loop(initialization_params)?;
-        Arc::try_unwrap(self.context)
-            .ok()
-            .unwrap()
-            .into_inner()
-            .unwrap()
-            .join()?;
+
+        // The client may also have gone away without asking for a shutdown: whoever is listening gets told regardless
+        let connection = {
+            let mut ctx = self.lock_context();
+            ctx.invoke_shutdown_handlers();
+            ctx.connection.take()
+        };
+        // Others (e.g. the debug adapter) hold on to the context as well, so the connection is taken out of it instead of
+        // taking the context apart. Once the connection is gone the thread that writes to the client ends.
+        if let Some((connection, io_threads)) = connection {
+            drop(connection);
+            if let Some(io_threads) = io_threads {
+                io_threads.join()?;
+            }
+        }
 
         log::info!("Shutting down MOS language server");
         Ok(())
